@@ -328,3 +328,12 @@ def bounded_streams(tier, seed):
 
 
 BOUNDED.append(bounded_streams)
+
+
+def bounded_random_documents(tier, seed):
+    """every declared 2xx JSON / empty response of every operation of every random corpus document, through a real generated client"""
+    from props import randrt
+    return randrt.bounded("responses", tier, seed)
+
+
+BOUNDED.append(bounded_random_documents)
